@@ -28,6 +28,8 @@ const (
 	FaultGeneric   FaultKind = "generic"
 	FaultNotFound  FaultKind = "notfound"
 	FaultCancelled FaultKind = "cancelled"
+	// FaultCtxDone: the caller's context is REALLY cancelled when the operation starts (OnCtxDone); the operation is forwarded
+	FaultCtxDone FaultKind = "ctxdone"
 )
 
 var ErrInjected = errors.New("injected storage fault")
@@ -50,6 +52,7 @@ type RecStorage struct {
 	NidOrder func(ids []string) []string
 	// NidEmptyOK: an unknown node id is answered with an empty set and no error (as a database-backed
 	// store might) instead of ErrNotFound
+	OnCtxDone  func() // cancels the context the flows run under (FaultCtxDone)
 	NidEmptyOK bool
 	// NativeNid: when the inner back end implements NodeIdLoader, use its lookup instead of the harness' scan
 	NativeNid bool
@@ -176,6 +179,16 @@ func (r *RecStorage) begin(op, typ, id string, write bool, b []byte) (OpRec, err
 	}
 	if (r.FailAt != 0 && r.seq == r.FailAt) || match {
 		switch r.Fail {
+		case FaultCtxDone:
+			if r.OnCtxDone != nil {
+				r.OnCtxDone()
+			}
+			rec.Err = "injected:" + string(r.Fail) // logged as the injected event; the operation goes through
+			r.mu.Unlock()
+			if gate := r.Gate; gate != nil {
+				gate(rec)
+			}
+			return rec, nil
 		case FaultNotFound:
 			ferr = fmt.Errorf("injected: %w", nodeenrollment.ErrNotFound)
 		case FaultCancelled:
